@@ -12,7 +12,7 @@ RULE = ('(sequential part) random name sequences registered through append, attr
         'build events by number on a FRESH SignalSource substituted for miros.event.signals, with detsched switching at every bytecode '
         'boundary inside miros/event.py (seeded random / PCT); any exception in a thread, any pair of names sharing a number, any number '
         'that differs between two observations, or an Event whose (signal, signal_name) pair disagrees with the final registry is a '
-        'violation. Every twentieth case repeats the concurrent part on REAL threads with the real primitives (vt/osback.py: nothing substituted, switch interval 1 us, random yields at line starts of miros code). ' + sysx.RULE_TEXT % (1, 2) + 'distinct_nontrivial = distinct context-switch sequences with >= 2 threads registering')
+        'violation. Every twentieth case repeats the concurrent part on REAL threads with the real primitives (vt/osback.py: nothing substituted, switch interval 1 us, random yields at line starts of miros code). ' + sysx.RULE_TEXT % (1, 1) + 'distinct_nontrivial = distinct context-switch sequences with >= 2 threads registering')
 CASES = {'quick': 1500, 'thorough': 100000}
 BUDGET = {'quick': 150, 'thorough': 600}
 REQUIRE = {'concurrent_runs': 500, 'sequential_ops': 10000, 'concurrent_registrations': 3000, 'systematic_schedules': 500, 'systematic_scenarios_exhausted': 2, 'os_backend_runs': 40}
@@ -98,7 +98,7 @@ def sequential_case(ctx, rng):
     EV.signals = saved
 
 
-SYS = {'quick': (8, 1, 3000, 75.0), 'thorough': (32, 2, 100000, 150.0)}     # systematic cases, preemption bound, schedule cap, seconds cap (per scenario)
+SYS = {'quick': (8, 1, 3000, 75.0), 'thorough': (64, 1, 100000, 120.0)}     # systematic cases, deviation bound, schedule cap, seconds cap (per scenario)
 
 
 def run_case(ctx, n):
